@@ -46,7 +46,12 @@ def runExportRT (inp out : Json) : Json :=
     | some r =>
       let want := valsIn.getD []
       (if r.1 == m then [] else [{ prop := "C13", code := "meta_changed", detail := s!"got {showInvoked r}" }]) ++
-      (if canonValuesUid r.2 == canonValuesUid want then [] else [{ prop := "C13", code := "values_changed", detail := s!"got {showInvoked r} want {showInvoked (m, want)}" }])
+      (if canonValuesUid r.2 == canonValuesUid want then [] else [{ prop := "C13", code := "values_changed", detail := s!"got {showInvoked r} want {showInvoked (m, want)}" }]) ++
+      -- the imported Action is a value: used as the base of a derived action in between, it still holds the document
+      (match parseResult (jget out "importedAgain") with
+       | some r2 => if (jget out "importedAgain").isNull || (r2.1 == r.1 && canonValuesUid r2.2 == canonValuesUid r.2) then [] else
+           [{ prop := "C13", code := "imported_action_not_a_value", detail := s!"first {showInvoked r}, after a derived action was invoked {showInvoked r2}" }]
+       | none => if (jget out "importedAgain").isNull then [] else [{ prop := "C13", code := "import_panics", detail := (jget out "importedAgain").compress }])
   Json.mkObj [("same", Json.bool same), ("diff", Json.str (if same then "" else if decodeDiff != "" then decodeDiff ++ s!" real {String.ofList doc}" else s!"model {String.ofList model} real {String.ofList doc}")),
               ("fails", Json.arr (fails.map afailJson).toArray),
               ("feat", Json.mkObj [("via", Json.str (jstr (jget inp "via"))), ("nvalues", Json.num (valsIn.getD []).length),
